@@ -9,6 +9,7 @@ LEAN_MODULES = ['MV.Props.C09', 'MV.Props.C09b']
 LEAN_HELPERS = ['MV.Lemmas.RelShift', 'MV.Lemmas.Window', 'MV.Lemmas.Asc', 'MV.Model.Rel', 'MV.Model.Pitch', 'MV.Model.Basic']
 DRIVERS = ['C01']
 GEN = ['Tables', 'Library']
+SRC_TIE = ['SrcRel']   # py2lean source images proved equal to the model (MV/Props/Tie*.lean)
 RULE = ('(chord, relative note, previous pitch) triples: 8 relative kinds x pcs of real chords (7-, 12-, 3..7-tone '
         'systems incl. modifiers) x previous pitch in -72..84 on and off the system x val/octave; plus raw '
         'get_relative_scale_value calls on arbitrary pitch-class sets; non-trivial = request distinct and step count != 0 '
@@ -184,6 +185,9 @@ def correspondence(ctx):
                       'input': {'raw': (kind, int(n.val), int(n.octave), last, scale)},
                       'bucket': [f'size={size}', 'far' if abs(last) > 90 else 'near']})
     ctx.compare('relraw', 'C01', cases)
+    # kernel-level streams of the source tie (DESIGN §9.6)
+    import srctie
+    srctie.run(ctx, SRC_TIE)
 
 
 def oracle(ctx):
